@@ -1,7 +1,9 @@
 /* C05 harness: return-value handshake on the REAL runtime (public + internal API, no source edits).
  * stdin:
  *   V <kind a|s|n|v> <variant 0 fork|1 fork_to|2 copyargs|3 new_team|4 new_subteam|5 qthread_fork_copyargs_to (kind s)> <shep> <prefull 0|1> <value u64>
- *   N <id> <parent|-1> <kind t|u|m|s>      declare a node of a team tree (t: new team, u: subteam of the default team,
+ *   N <id> <parent|-1> <kind t|u|m|s|p>    declare a node of a team tree (t: new team, u: subteam of the default team,
+ *                                           p: leaf member spawned by its parent with qthread_fork_precond on an EMPTY word;
+ *                                              the order token -<id> makes the controller fill that word,
  *                                           m: member spawned by its parent into the parent's team, s: subteam founded by its parent)
  *   O <id> <id> ...                         run the tree, opening the members' gates in this order
  *   Q
@@ -79,7 +81,7 @@ static void case_v(char kind, int variant, int shep, int prefull, uint64_t value
 
 /* ---------------- team trees ---------------- */
 #define MAXN 64
-typedef struct { int used, parent; char kind; aligned_t ret, gate; volatile int finished; } node_t;
+typedef struct { int used, parent; char kind; aligned_t ret, gate, pre; volatile int finished, started; } node_t;
 static node_t    nd[MAXN];
 static aligned_t nstarted;
 static aligned_t seqctr;
@@ -92,8 +94,10 @@ static aligned_t body_n(void *arg)
         if (!nd[c].used || nd[c].parent != id) continue;
         qthread_empty(&nd[c].gate);
         if (nd[c].kind == 'm') qthread_fork(body_n, (void *)(intptr_t)c, &nd[c].ret);
+        else if (nd[c].kind == 'p') { qthread_empty(&nd[c].pre); qthread_fork_precond(body_n, (void *)(intptr_t)c, &nd[c].ret, 1, &nd[c].pre); }
         else qthread_fork_new_subteam(body_n, (void *)(intptr_t)c, &nd[c].ret);
     }
+    nd[id].started = 1;
     qthread_incr(&nstarted, 1);
     qthread_fill(&ctl);
     qthread_readFF(NULL, &nd[id].gate);
@@ -105,8 +109,8 @@ static aligned_t body_n(void *arg)
 
 static void run_tree(int *order, int norder)
 {
-    int n = 0, root = -1;
-    for (int i = 0; i < MAXN; i++) if (nd[i].used) { n++; if (nd[i].parent < 0) root = i; }
+    int n = 0, root = -1;   /* n: nodes that start without the controller's help (precondition members start when released) */
+    for (int i = 0; i < MAXN; i++) if (nd[i].used) { if (nd[i].kind != 'p') n++; if (nd[i].parent < 0) root = i; }
     qthread_empty(&ctl); nstarted = 0; seqctr = 0;
     alarm(getenv("C05_ALARM") ? atoi(getenv("C05_ALARM")) : 150);
     qthread_empty(&nd[root].gate);
@@ -115,10 +119,15 @@ static void run_tree(int *order, int norder)
     while ((int)nstarted < n) ctl_wait();
     for (int j = 0; j < norder; j++) {
         int id = order[j];
-        /* before opening the gate: the status of every node's return location */
+        /* before the step: the status of every node's return location */
         printf("P %d", id);
         for (int i = 0; i < MAXN; i++) if (nd[i].used) printf(" %d:%d", i, qthread_feb_status(&nd[i].ret));
         printf("\n");
+        if (id < 0) {           /* satisfy the precondition of member -id; it starts running now */
+            qthread_fill(&nd[-id].pre);
+            while (!nd[-id].started) ctl_wait();
+            continue;
+        }
         qthread_fill(&nd[id].gate);
         while (!nd[id].finished) ctl_wait();
         usleep(300);
@@ -148,7 +157,7 @@ int main(void)
             sscanf(line + 1, "%d %d %c", &id, &parent, &kind);
             nd[id].used = 1; nd[id].parent = parent; nd[id].kind = kind; nd[id].finished = 0;
         } else if (line[0] == 'O') {
-            static int order[MAXN]; int n = 0; char *p = line + 1;
+            static int order[2 * MAXN]; int n = 0; char *p = line + 1;
             for (;;) { char *e; long v = strtol(p, &e, 10); if (e == p) break; p = e; order[n++] = (int)v; }
             run_tree(order, n);
         } else if (line[0] == 'Q') break;
